@@ -16,6 +16,10 @@ def columns_layout(context, box, bottom_space, skip_stack, containing_block,
 
     style = box.style
     width = style['column_width']
+    if width != 'auto':
+        # Used values are clamped to a minimum of 1px.
+        # https://www.w3.org/TR/css-multicol-1/#cw
+        width = max(1, width)
     count = style['column_count']
     height = style['height']
     original_bottom_space = bottom_space
